@@ -106,10 +106,19 @@ def in_bound(*ds):
 # --------------------------------------------------------------------------
 
 
+CTOR_BAD = {"float": 1.5, "integral-float": 2.0, "bool": True, "str": "1", "none": None}
+
+
 def time_impl(case):
     I = impl()
     U = I["Unit"]
     k = case["kind"]
+    if k == "ctor":
+        # oracle-only: the constructor must refuse anything that is not exactly an int / a Unit
+        return {
+            "_time_" + n: observe(lambda v=v: I["EventTime"](v, U.US) and 0) for n, v in CTOR_BAD.items()
+        } | {"_unit_number": observe(lambda: I["EventTime"](1, 1000) and 0),
+             "_mul_float": observe(lambda: I["EventTime"](1, U.US) * 1.5)}
     a = mk_et(case["a"])
     if k == "unary":
         kk = case["k"]
@@ -176,6 +185,12 @@ def time_oracle(case, o):
     integer-only laws that hold for every magnitude."""
     bad = []
     k = case["kind"]
+    if k == "ctor":
+        for key_, v in o.items():
+            want_err = "RuntimeError" if key_ == "_mul_float" else "ValueError"
+            if v != {"err": want_err}:
+                bad.append((f"time:non-integer-accepted {key_[1:]}", {"got": v}))
+        return bad
     a = case["a"]
     ua = us(a)
 
@@ -300,7 +315,7 @@ def gen_time_cases(rng, tier):
         grid += GRID_THOROUGH_EXTRA
         tgrid += [2, -1000, 999999, 9007199254, -9007199254740, 2**53, 10**15]
         n_rand = 60000
-    cases = []
+    cases = [{"suite": "time", "kind": "ctor"}]
     for i, a in enumerate(ets(grid)):
         cases.append({"suite": "time", "kind": "unary", "a": a, "k": [-3, 0, 2, 1000, -1][i % 5]})
     E = ets(grid)
@@ -423,6 +438,8 @@ def queue_impl(case):
             out = call(q.reheapify)
         elif o == "len":
             out = len(q)
+        elif o == "task_types":
+            out = sorted(v for _, v in all_types() if needs_task(v))
         elif o == "sorted":
             try:
                 out = [ident[id(e)] for e in sorted(events[i] for i in op["es"])]
@@ -536,6 +553,11 @@ def queue_oracle(case, steps):
                 bad.append(("queue:next-of-type-wrong-type-or-missing", {"step": n, "out": out}))
             elif any(key(y) < key(out) for y in cands):
                 bad.append(("queue:next-of-type-not-minimal", {"step": n, "out": out}))
+        elif o == "task_types":
+            want = [v for n_, v in all_types() if n_ in
+                    ("TASK_CANCEL", "TASK_RELEASE", "TASK_PLACEMENT", "TASK_PREEMPT", "TASK_MIGRATION", "TASK_FINISHED")]
+            if sorted(out) != sorted(want):
+                bad.append(("queue:task-carrying-types-changed", {"step": n, "out": out}))
         elif o == "len":
             if out != sum(shadow.values()):
                 bad.append(("queue:len-wrong", {"step": n, "out": out}))
@@ -708,7 +730,7 @@ CORPUS = [
             + [{"op": "next"}] * 9},
     {"suite": "queue", "stream": "wellformed", "judge": True,
      "events": [_ev(1, 11), _ev(1, 11), _ev(1, 11), _ev(0, 11)],
-     "ops": [{"op": "add", "e": 0}, {"op": "add", "e": 1}, {"op": "add", "e": 0}, {"op": "add", "e": 2}, {"op": "add", "e": 3},
+     "ops": [{"op": "task_types"}, {"op": "add", "e": 0}, {"op": "add", "e": 1}, {"op": "add", "e": 0}, {"op": "add", "e": 2}, {"op": "add", "e": 3},
              {"op": "remove", "e": 0}, {"op": "len"}, {"op": "sorted", "es": [2, 1, 0, 3, 1]}, {"op": "next"}, {"op": "next"},
              {"op": "next"}, {"op": "next"}, {"op": "next"}]},
 ]
@@ -790,12 +812,14 @@ def run(chk: common.Check):
     # model
     disagreements = []
     try:
-        model_out = common.run_driver([driver_case(c) for c in cases]) if not any("lake-build" in b for b in broken) else None
+        to_model = [c for c in cases if c.get("kind") != "ctor"]
+        model_out = common.run_driver([driver_case(c) for c in to_model]) if not any("lake-build" in b for b in broken) else None
     except common.LeanFailure as e:
         model_out = None
         broken.append(f"driver: {e.what}")
     if model_out is not None:
-        for c, o, m in zip(cases, impl_out, model_out):
+        paired = [(c, o) for c, o in zip(cases, impl_out) if c.get("kind") != "ctor"]
+        for (c, o), m in zip(paired, model_out):
             if "protocol_error" in m:
                 raise RuntimeError(f"driver protocol error {m} on {json.dumps(c)[:300]}")
             if c["suite"] == "time":
@@ -809,7 +833,10 @@ def run(chk: common.Check):
 
     # bookkeeping for the evidence
     for c, o in zip(cases, impl_out):
-        if c["suite"] == "time":
+        if c.get("kind") == "ctor":
+            chk.count("time:ctor")
+            chk.case({"kind": "ctor"}, True)
+        elif c["suite"] == "time":
             inb = in_bound(*(c[x] for x in ("a", "b", "c") if x in c))
             chk.count(f"time:{c['kind']}:{'in-bound' if inb else 'beyond-2^53'}")
             vals = [v for k, v in o.items() if not k.startswith("_")]
@@ -871,18 +898,19 @@ def run(chk: common.Check):
     chk.exhaustive = False
     chk.rule = (
         "time: every unary/pair case over the value grid x {US,MS,S} (exhaustive for the grid; grid includes 0, +-1, "
-        "invalid(), unit-factor multiples, 2^53-1, 2^53, 2^53+1, sys.maxsize), every triple over a smaller grid, plus "
-        "seeded random values up to 2^70; non-trivial = all operands within |us| < 2^53, not all zero, at least one "
-        "non-error observation. queue: hand-written corpus first, then seeded random histories (<= 60 ops + drain) of "
-        "add/remove/next/peek/next_of_type/retime(+reheapify)/len/sorted/lt over 2-14 real Event objects with few "
-        "distinct times (ties across units) and types; 90% well-formed (task present iff the constructor demands it, "
-        "judged by the oracle), 5% ill-formed and 5% API-misuse (retime without reheapify) streams compared with the "
-        "model only; non-trivial = at least one successful pop while other events were pending; distinct = by "
-        "canonical case hash."
+        "invalid(), unit-factor multiples, 2^53-1, 2^53, 2^53+1, sys.maxsize), every triple over a smaller grid, "
+        "seeded random values up to 2^70 (one third forced to equal microseconds in another unit), one constructor "
+        "case (non-int times / units must be refused); non-trivial = all operands within |us| < 2^53, not all zero, "
+        "at least one non-error observation. queue: hand-written corpus first, then seeded random histories (<= 60 "
+        "ops + drain) of add/remove/next/peek/next_of_type/retime(+reheapify)/reheapify/len/sorted/lt over 2-14 real "
+        "Event objects (real Task and Placement) with few distinct times (ties across units), types and names; 90% "
+        "well-formed, 5% API-misuse (queued event re-timed without reheapify: order not judged until the next "
+        "heapify), 5% ill-formed events (compared with the model only); non-trivial = at least one successful pop "
+        "while other events were pending; distinct = by canonical case hash."
     )
     chk.assumptions += [
         "time values are judged by the oracle only when every operand is below 2^53 microseconds in magnitude (the property's bound); beyond it the model (exact integer model of double rounding) is still compared with the code",
-        "queue histories are judged only when every event is well-formed (task present exactly for the types whose constructor requires one) and re-timing of a queued event is followed by reheapify(), as the simulator does",
+        "queue histories are judged only when every event is well-formed (task present exactly for the types whose constructor requires one); after an in-place re-timing of a queued event the order is judged again only from the next reheapify()/remove_event(), as the simulator does",
         "CPython's heapq (C accelerator) is what the repository runs; lists stay below the 2500-element threshold irrelevant in 3.12",
     ]
 
